@@ -58,6 +58,7 @@ func getParallelState(numWorkers, mbW, mbH int, useDerr bool) *parallelState {
 
 func putParallelState(ps *parallelState) {
 	parallelPool.Put(ps)
+	verifhook.PoolPut("lossy.parallelState")
 }
 
 // rowSync provides per-row synchronization for parallel encoding.
